@@ -11,6 +11,9 @@ if [ "$ROUND" = "1" ]; then
 elif [ "$ROUND" = "3" ]; then
   ROOT=/tmp/seed3
   SPECS="C01-control-length-u16-add-overflow:C01 C02-reveal-chunk-granular-bound:C02 C03-resultcode-msg-fffd-rejected:C03 C04-data-length-patched-at-absolute-2:C04 C05-data-header-length-u16-wrap:C05 C06-length-member-12-drops-avps:C06 C07-writer-default-method-native-endian:C07 C08-control-guard-len-as-u16:C08 C09-backpatch-skipped-when-length-equals-end:C09 C10-encoder-refuses-exactly-65535:C10 C11-scratch-buffer-241-250-secret-panics:C11 C12-scratch-buffer-241-250-secret-truncates:C12 C13-resultcode-all-nul-message-panics:C13 C14-try-read-skips-optional-vendor-avps:C14 C15-greedy-stops-after-256-records:C15 C18-bytes-position-plus-length-overflow:C18 C19-secret-prefix-memo-keyed-by-address:C19 C20-q931-dangling-lead-octet-accepted:C20"
+elif [ "$ROUND" = "11" ]; then
+  ROOT=/tmp/seed11
+  SPECS="C01-avp-count-mean-window-reset-divides-by-zero:C01 C02-error-budget-lean-loop-without-length-guard:C02 C03-avp-count-stats-window-reset-divides-by-zero:C03 C04-session-stats-table-stale-insert-index:C04 C05-text-cache-recycled-slot-half-updated:C05 C06-retransmission-cache-keyed-by-ids-and-ns:C06 C07-staged-path-after-32-writes-wraps-length:C07 C08-result-slots-shared-round-robin-of-64:C08 C09-staged-path-after-32-writes-absolute-length:C09 C10-staging-review-truncates-live-payload:C10 C11-secret-state-table-recycles-stale-prefix:C11 C12-secret-state-table-recycled-entry-not-reset:C12 C13-buffer-pool-of-8-overflows:C13 C14-unused-option-parked-in-process-wide-atomic:C14 C15-undecodable-count-saturates-at-u16-max:C15 C18-vecwriter-presize-hint-truncates-first-append:C18 C19-vendor-report-limit-process-wide-counter:C19 C20-unassigned-name-table-recycled-slot-keeps-name:C20"
 elif [ "$ROUND" = "10" ]; then
   ROOT=/tmp/seed10
   SPECS="C01-greedy-prealloc-from-reader-len-2:C01 C02-decode-stats-refcell-held-across-reader-calls:C02 C03-staging-lease-released-by-non-owner:C03 C04-data-header-fields-patched-at-absolute-positions:C04 C05-payload-via-bytes-refusal-not-skipped:C05 C06-control-length-patched-at-absolute-2:C06 C07-length-guard-in-drop-skipped-while-panicking:C07 C08-avp-area-via-bytes-refusal-loses-position:C08 C09-header-layout-memo-absolute-position:C09 C10-contended-scratch-fallback-length-two-short:C10 C11-first-digest-memo-stores-last-block:C11 C12-secret-prefix-md5-state-never-rekeyed:C12 C13-decode-stats-refcell-reveal-reentrant:C13 C14-validation-scope-cleared-by-nested-decode:C14 C15-payload-via-bytes-refusal-ends-list:C15 C18-overwrite-partial-before-refusal:C18 C19-accepted-flags-memo-ignores-options:C19 C20-decode-depth-counter-leaks-on-header-errors:C20"
